@@ -126,6 +126,14 @@ func runOne(t *testing.T, prop string, f propFunc, seed int64, tr *Trace) (res *
 			res.OK = false
 		}
 	}()
+	// a run that does not come back (an engine call blocked for good on a lock the simulator does not own,
+	// a spin) is a violation of "every call returns": stacks are dumped and the process exits 3
+	limit := 150 * time.Second
+	if prop == "C07" || prop == "C03" {
+		limit = 400 * time.Second
+	}
+	stop := startWatchdog(limit, fmt.Sprintf("%s run (seed %d)", prop, seed))
+	defer stop()
 	f(w, tr)
 	return res
 }
